@@ -384,6 +384,109 @@ class Gen:
             if not l.endswith(" empty"): return l
         return l
 
+    # ---- intervals: three-address arithmetic with the receiver among the operands ----
+    def itv_bound(self, upper, lo=None):
+        r = self.r
+        k = r.choice("ccccooi")
+        if k == "i": return "i 0 1", None
+        n = r.randint(-4, 4) if lo is None else lo + r.randint(0, 5)
+        d = r.choice([1, 1, 1, 2, 3])
+        return "%s %d %d" % (k, n * (1 if lo is None else d), d), n
+
+    def itv_new(self, o):
+        r = self.r
+        if r.random() < 0.05: return "new %d 1 empty" % o
+        # sign classes on purpose: negative, straddling zero, positive, touching zero
+        cls = r.choice(["neg", "mix", "mix", "mix", "pos", "zl", "zu", "any"])
+        lo, hi = {"neg": (r.randint(-6, -2), r.randint(-2, -1)), "mix": (r.randint(-5, -1), r.randint(1, 5)), "pos": (r.randint(1, 2), r.randint(2, 6)),
+                  "zl": (0, r.randint(0, 4)), "zu": (r.randint(-4, 0), 0), "any": (r.randint(-4, 4), None)}[cls]
+        if hi is None: hi = lo + r.randint(0, 4)
+        if lo > hi: lo, hi = hi, lo
+        lk = r.choice("ccccooi"); uk = r.choice("ccccooi")
+        d1 = r.choice([1, 1, 1, 2]); d2 = r.choice([1, 1, 1, 2])
+        return "new %d 1 %s %d %d %s %d %d" % (o, lk, lo * d1, d1, uk, hi * d2, d2)
+
+    def itv_history(self, cid, steps=16):
+        r = self.r
+        lines = ["case %s ITV" % cid]
+        for o in range(POOL): lines.append(self.itv_new(o))
+        twins = []
+        for _ in range(steps):
+            z = r.randrange(POOL)
+            u = r.random()
+            if u < 0.08: lines.append(self.itv_new(z)); continue
+            if u < 0.12: lines.append("obs %d ok" % z); continue
+            if u < 0.18:
+                y = r.randrange(POOL); lines.append("op %d %s %d" % (z, r.choice(["assign", "swap", "std_swap"]), y)); continue
+            for t in twins: lines.append("del %d" % t)
+            if u < 0.40:
+                op = r.choice(["neg_assign", "join_assign", "intersect_assign", "add_op", "sub_op", "mul_op", "mul_op", "div_op"])
+                x = z if r.random() < 0.5 else r.randrange(POOL)
+                twins = [10, 11]
+                lines += ["copy 10 %d" % z, "copy 11 %d" % x, "op 10 %s 11" % op, "op %d %s %d" % (z, op, x), "eqres", "eq %d 10" % z]
+                continue
+            op = r.choice(["add_assign", "sub_assign", "mul_assign", "mul_assign", "mul_assign", "div_assign", "join3", "intersect3"])
+            pat = r.choice(["z=x", "z=y", "z=x=y", "x=y", "distinct"])
+            others = [o for o in range(POOL) if o != z]
+            if pat == "z=x": x, y = z, r.choice(others)
+            elif pat == "z=y": x, y = r.choice(others), z
+            elif pat == "z=x=y": x, y = z, z
+            elif pat == "x=y": x = y = r.choice(others)
+            else: x, y = r.sample(others, 2)
+            twins = [10, 11, 12]
+            lines += ["copy 10 %d" % z, "copy 11 %d" % x, "copy 12 %d" % y, "op 10 %s 11 12" % op, "op %d %s %d %d" % (z, op, x, y), "eqres", "eq %d 10" % z]
+        for t in twins: lines.append("del %d" % t)
+        return lines
+
+    # ---- solvers: copies / assignments / swaps of solved problems, then mutate or destroy the source ----
+    def solver_con(self, n):
+        r = self.r
+        v = [r.randint(-2, 2) if r.random() < 0.7 else 0 for _ in range(n)]
+        if not any(v): v[r.randrange(n)] = 1
+        return ">= %d %s" % (r.randint(-3, 6), " ".join(map(str, v)))
+
+    def solver_new(self, o, dom, n):
+        r = self.r
+        box = []
+        for i in range(n):
+            e = [0] * n; e[i] = 1; box.append(">= 0 %s" % " ".join(map(str, e)))
+            e[i] = -1; box.append(">= 4 %s" % " ".join(map(str, e)))
+        extra = [self.solver_con(n) for _ in range(r.randint(1, 4))]
+        cs = "%d %s" % (len(box) + len(extra), " ".join(box + extra))
+        if dom == "PIP": return "new %d %d 1 %s" % (o, n, cs)
+        obj = " ".join(str(r.randint(-3, 3)) for _ in range(n))
+        return "new %d %d %d %s %d %s %s" % (o, n, r.randint(0, n), cs, r.randint(-2, 2), obj, r.choice(["max", "min"]))
+
+    def solver_history(self, cid, dom, steps=12):
+        r = self.r
+        lines = ["case %s %s" % (cid, dom)]
+        dims = {}
+        for o in range(3):
+            dims[o] = r.randint(2, 3); lines.append(self.solver_new(o, dom, dims[o]))
+        twin = False
+        for _ in range(steps):
+            x = r.randrange(3); y = r.choice([o for o in range(3) if o != x])
+            u = r.random()
+            if twin: lines.append("del 10"); twin = False
+            if u < 0.22: lines.append("copy %d %d" % (x, y)); dims[x] = dims[y]
+            elif u < 0.36: lines.append("op %d assign %d" % (x, y if r.random() < 0.8 else x)); dims[x] = dims[y] if lines[-1].endswith(str(y)) else dims[x]
+            elif u < 0.48:
+                z = y if r.random() < 0.8 else x
+                lines.append("op %d %s %d" % (x, r.choice(["swap", "std_swap"]), z)); dims[x], dims[z] = dims[z], dims[x]
+            elif u < 0.58: lines.append("op %d add_constraint %s" % (x, self.solver_con(dims[x])))
+            elif u < 0.64 and dims[x] < 4:
+                lines.append("op %d add_dims 0 1" % x if dom == "PIP" else "op %d add_dims 1" % x); dims[x] += 1
+            elif u < 0.70: lines.append("op %d clear" % x); dims[x] = 0; lines.append(self.solver_new(x, dom, 2)); dims[x] = 2
+            elif u < 0.78: lines += ["del %d" % x, self.solver_new(x, dom, dims[x] if dims[x] >= 2 else 2)]; dims[x] = max(dims[x], 2)
+            elif u < 0.84 and dom == "MIP": lines.append("op %d set_mode %s" % (x, r.choice(["max", "min"])))
+            else:
+                # the same mutation on a copy and on its source: identical answers
+                c = self.solver_con(dims[x])
+                lines += ["copy 10 %d" % x, "op 10 add_constraint %s" % c, "op %d add_constraint %s" % (x, c), "eq %d 10" % x]
+                twin = True
+        if twin: lines.append("del 10")
+        return lines
+
     # ---- syntactic objects ----
     def le_history(self, cid, steps=16, alias_p=0.5):
         r = self.r
@@ -487,6 +590,8 @@ def make_cases(seed, plan, maxdim=3, start=0):
             cid = "%s%d" % (dom.lower(), k); k += 1
             if dom.startswith("sweep:"):
                 out += g.sweep_history("sw" + cid.split(":")[-1], dom.split(":")[1], SWEEP_CONFIGS[(k - 1) % len(SWEEP_CONFIGS)])
+            elif dom == "ITV": out += g.itv_history(cid, steps)
+            elif dom in ("PIP", "MIP"): out += g.solver_history(cid, dom, steps)
             elif dom == "LE": out += g.le_history(cid, steps)
             elif dom in ("CS", "GS"): out += g.sys_history(cid, dom, steps)
             else: out += g.history(cid, dom, steps)
